@@ -434,8 +434,12 @@ Spans of submodels differ:
 
         def get_check_values() -> Dict[Hashable, np.ndarray]:
             """Return NumPy arrays of variable values for the current period, for checking."""
+            # Store the linker's own values under its name (never the same as a
+            # submodel identifier)
             check_values = {
-                '_': np.array([self.__dict__['_' + name][t] for name in self.check]),
+                self.name: np.array(
+                    [self.__dict__['_' + name][t] for name in self.check]
+                ),
             }
 
             for k, submodel in self.submodels.items():
